@@ -244,6 +244,16 @@ func (b *B) ValWithUnit(lit string, t types.Type, unit string) {
 	b.post("Val", 0, 0)
 }
 
+// BTICall calls a method the front end registered for a builtin type: MemberVal keeps the
+// receiver as first argument below the method and Call(n) consumes both, so the pair is
+// reported as one operation that replaces the receiver (and n arguments) by the result.
+func (b *B) BTICall(name string, n int) {
+	b.pre("BTICall")
+	b.cb.MemberVal(name, 0)
+	b.cb.Call(n)
+	b.post("Call", n, 0)
+}
+
 // VBlock opens a virtual block (a scope without braces).
 func (b *B) VBlock() { b.pre("VBlock"); b.cb.VBlock(); b.post("Open:vblock", 0, 0) }
 
